@@ -239,6 +239,16 @@ func c11Bundle(r *fw.Rand) (*ref.Bundle, []*ref.Msg) {
 		}
 		main.Body = append(main.Body, iff, &ref.Raw{Text: "after:"}, mk())
 	}
+	if r.Bool() {
+		// messages inside content blocks: their translated text belongs to the block, like everything else in it
+		if r.Bool() {
+			main.Body = append(main.Body, &ref.LetContent{Name: "w", Body: []ref.Node{&ref.Raw{Text: "<"}, mk(), &ref.Raw{Text: ">"}}}, &ref.Raw{Text: "let["},
+				&ref.Print{E: &ref.DataRef{Name: "w"}, Dirs: []ref.Dir{{Name: "noAutoescape"}}}, &ref.Raw{Text: "]"})
+		} else {
+			main.Body = append(main.Body, &ref.Raw{Text: "param["}, &ref.CallT{Target: "c11.callee", NameSrc: ".callee",
+				Params: []ref.Param{{Name: "p", IsContent: true, Content: []ref.Node{&ref.Raw{Text: "<"}, mk(), &ref.Raw{Text: ">"}}}}}, &ref.Raw{Text: "]"})
+		}
+	}
 	if r.P(2, 3) {
 		// a twin of the first message: same text and placeholder names (hence the same id and one catalogue
 		// entry), but its placeholders stand for other expressions ($s <-> $m.s, $a <-> $m.a, $t <-> $s + 'x')
